@@ -62,10 +62,13 @@ def make_case(rng, b, sg_name, fam, orient, supercell=None):
             P.append([int((sym[i] + off[i]) % N) for i in range(3)])
         else:
             P.append([int(x) for x in rng.integers(0, N, size=3)])
+    input_changed = False
     psite = PeriodicSite('Si', np.array(site) / N, lattice, label='A')
     sa = ShapeAnalyzer(lattice=lattice, sites=[psite], spacegroup=sg)
     if supercell is None:
-        shapes = sa.analyze_positions(np.array(P) / N, radius=radius)
+        arr = np.array(P) / N
+        sa.analyze_positions(arr, radius=radius)
+        shapes = sa.analyze_positions(arr, radius=radius)          # same input array a second time
     else:
         sc = np.array(supercell)
         # positions in the supercell: unit-cell position + a random cell offset, expressed in supercell fractions
@@ -73,7 +76,11 @@ def make_case(rng, b, sg_name, fam, orient, supercell=None):
         frac = K / (N * sc)
         T = 1
         traj = Trajectory(species=[Species('Li')] * len(P), coords=frac[None, :, :], lattice=Lattice(M * sc[:, None]), time_step=1e-15)
+        before = np.array(traj.positions, copy=True)
+        sa.analyze_trajectory(traj, supercell=tuple(int(x) for x in sc), radius=radius)
+        # analysing must not alter the trajectory: the second analysis of the same object is the one that is judged
         shapes = sa.analyze_trajectory(traj, supercell=tuple(int(x) for x in sc), radius=radius)
+        input_changed = not np.array_equal(np.asarray(traj.positions), before)
     sh = shapes[0]
     coords = np.asarray(sh.coords, dtype=float).reshape(-1, 3)
     fr = coords @ np.linalg.inv(M) * N
@@ -86,6 +93,7 @@ def make_case(rng, b, sg_name, fam, orient, supercell=None):
     dsq = (np.asarray(d)[order] ** 2 * N * N) if len(got) else np.array([])
     dsq_i = [int(round(x)) if abs(x - round(x)) <= 1e-6 * max(1.0, x) else -999999 for x in dsq]
     rec = {'b': b, 'G': G, 'N': N, 'R': R, 'thr': thr, 'ops': ops, 'site': site, 'P': P, 'got': got.tolist(), 'dsq': dsq_i,
+           'inputChanged': bool(input_changed),
            'meta': {'spacegroup': sg_name, 'family': fam, 'orientation': orient, 'radius': radius, 'n_ops': len(ops),
                     'supercell': None if supercell is None else [int(x) for x in supercell]}}
     return rec
